@@ -561,7 +561,7 @@ class Emitter:
                 raise TypeError('intrinsic ' + bare)
             if bare == 'verif_assert':
                 cond = self.val(ins.args[0][1], ins.args[0][0])
-                return 'VF_ASSERT(%s != 0, "VA:%s");' % (cond, self.const_cstr(ins.args[1][1]))
+                return self.assert_code(cond, ins.args[1][1])
             if bare == 'verif_reach':
                 return 'VF_REACH();'
             args = [self.val(v, t) for t, v in ins.args]
@@ -614,6 +614,17 @@ class Emitter:
                 parts.append('if (__fp == (FP)&x_%s) { %s%s; }' % (cid(n), lhs, call))
         parts.append('{ __vf_badcall(); }')
         return '{ FP __fp = (FP)%s; %s }' % (fp, ' else '.join(parts))
+
+    def assert_code(self, cond, idv):
+        """VF_ASSERT with a literal id; the optimiser may have merged two call sites into a select of two ids"""
+        if isinstance(idv, Local):
+            d = self.cur_defs.get(idv.n)
+            if d is not None and d.op == 'select':
+                return 'if (%s) { %s } else { %s }' % (self.val(d.c, IntTy(1)), self.assert_code(cond, d.a), self.assert_code(cond, d.b))
+            if d is not None and d.op == 'phi':
+                ids = sorted(set(self.const_cstr(v) for v, l in d.inc))
+                return 'VF_ASSERT(%s != 0, "VA:%s");' % (cond, '|'.join(ids))
+        return 'VF_ASSERT(%s != 0, "VA:%s");' % (cond, self.const_cstr(idv))
 
     def const_cstr(self, v):
         """the C string literal a constant i8* operand points to (harness assertion ids)"""
